@@ -129,7 +129,26 @@ def check(ctx):
     ok = "[self.visit(tp) for tp in types]" in t and "Constraints(min_items=len(types))" in t and "Constraints(max_items=len(types))" in t
     ctx.check(ok, "C06.R4", mt.qualname, mt.node.body[0], "tuple method must have one element method per type and length errors for exactly len(types)", mt, mt.node, detail="len(types) on both sides")
     tm = model.func(f"{DESER_MOD}.TupleMethod.deserialize")
-    ctx.check("data_len != len(self.elt_methods)" in norm(tm.node) or "len(data) != len(self.elt_methods)" in norm(tm.node), "C06.R4", tm.qualname, tm.node.body[0], "TupleMethod no longer requires the exact length", tm, tm.node, detail="len(data) == len(elt_methods)")
+    # the length is compared with the number of element methods with `!=`, or refused on both sides (`<` and `>` each leading to a raise)
+    raising_ops = set()
+    par6 = {c_: p_ for p_ in ast.walk(tm.node) for c_ in ast.iter_child_nodes(p_)}
+    for n_ in ast.walk(tm.node):
+        if isinstance(n_, ast.If) and isinstance(n_.test, ast.Compare) and len(n_.test.ops) == 1 and "len(self.elt_methods)" in (norm(n_.test.left), norm(n_.test.comparators[0])) \
+                and any(isinstance(x_, ast.Raise) for b_ in n_.body for x_ in ast.walk(b_)):
+            # reachable for every length on that side: the enclosing tests on the length, if any, are `!=`
+            anc, blocked = par6.get(n_), False
+            while anc is not None and anc is not tm.node:
+                if isinstance(anc, ast.If) and "len(self.elt_methods)" in norm(anc.test) and not (isinstance(anc.test, ast.Compare) and len(anc.test.ops) == 1 and isinstance(anc.test.ops[0], ast.NotEq)):
+                    blocked = True
+                anc = par6.get(anc)
+            if blocked:
+                continue
+            op_ = type(n_.test.ops[0])
+            if norm(n_.test.left) == "len(self.elt_methods)":      # operands the other way round
+                op_ = {ast.Lt: ast.Gt, ast.Gt: ast.Lt, ast.LtE: ast.GtE, ast.GtE: ast.LtE}.get(op_, op_)
+            raising_ops.add(op_)
+    exact = ast.NotEq in raising_ops or {ast.Lt, ast.Gt} <= raising_ops
+    ctx.check(exact, "C06.R4", tm.qualname, tm.node.body[0], "TupleMethod no longer requires the exact length", tm, tm.node, detail="len(data) == len(elt_methods)")
     bm = model.find_method(SB, "mapping")
     t = norm(bm.node)
     ok = "key['type'] != JsonType.STRING" in t and "raise ValueError" in t and "additionalProperties=value" in t and "patternProperties={key['pattern']: value}" in t
